@@ -68,7 +68,35 @@ namespace xv
         PK_SWZ_DYN,
         PK_COMPRESS,
         PK_EXPAND,
+        PK_SELECT_CONST,
     };
+    // the 136 compile-time select masks of C03 (one-hot / all-but-one per lane position, alternating, halves, quarters, pairs, pseudo-random, all, none)
+    inline bool select_const_mask(size_t K, size_t i, size_t n)
+    {
+        if (K < 64)
+            return i == K % n;
+        if (K < 128)
+            return i != (K - 64) % n;
+        switch (K)
+        {
+        case 128:
+            return i % 2 == 0;
+        case 129:
+            return i < n / 2;
+        case 130:
+            return i >= n / 2;
+        case 131:
+            return i % 4 < 2;
+        case 132:
+            return (i / (n >= 8 ? n / 4 : 1)) % 2 == 0;
+        case 133:
+            return (i * 7 + 3) % 5 < 2;
+        case 134:
+            return true;
+        default:
+            return false;
+        }
+    }
 
     // source of output element i of a batch: index into [x lanes 0..L-1 | y lanes L..2L-1], or -1 for zero fill.
     // Byte-granular kinds (slide) are expressed on bytes: `unit` is the element size or 1.
@@ -189,6 +217,10 @@ namespace xv
                     put(o, nullptr);
                 break;
             }
+            case PK_SELECT_CONST:
+                for (size_t i = 0; i < L; ++i)
+                    put(i, select_const_mask(p % 136, i, L) ? xb + i * es : yb + i * es);
+                break;
             case PK_EXPAND:
             {
                 const uint8_t* m = (const uint8_t*)A.in[1] + b;
@@ -233,6 +265,7 @@ namespace xv
         def_perm<PK_SWZ_DYN>("swizzle.dyn", "perm.index");
         def_perm<PK_COMPRESS>("compress", "perm.mask");
         def_perm<PK_EXPAND>("expand", "perm.mask");
+        def_perm<PK_SELECT_CONST>("select_const", "perm.tags");
     }
     // parameter range of a data-movement op for batches of L lanes of an es-byte type
     inline std::vector<long> perm_params(const std::string& op, int L, int es)
@@ -247,6 +280,8 @@ namespace xv
             n = (long)L * es + 1;
         else if (op == "rotate_left" || op == "rotate_right" || op == "extract_pair" || op == "insert" || op == "get" || op == "get.const")
             n = L;
+        if (op == "select_const")
+            n = 136;
         for (long k = 0; k < n; ++k)
             p.push_back(k);
         return p;
